@@ -1,15 +1,275 @@
-import Tmv.Model.Net
-import Tmv.Lemmas.Agreement
-/-! # C01 — agreement (work in progress: theorems are being added) -/
-namespace Tmv.Props.C01
-open Tmv.VoteLog
+import Tmv.Lemmas.NetLift
+/-! # C01 — agreement: correct nodes never commit different blocks at one height
 
-/-- two vote sets each holding more than two thirds of the power share a validator outside any set
-holding less than one third -/
+Theorems about the network model `Tmv.Net` (Tmv/Model/Net.lean): every correct validator runs the
+node model `Tmv.Cons.step` (Tmv/Model/Cons.lean — `consensus/state.go`, `types/vote_set.go`,
+`consensus/types/height_vote_set.go`, the signer; tied to the real `consensus.State` statement by
+statement by the C02 stream and, composed, by the c01 stream); the network is the log of every
+signed message ever sent. `Reachable nc s` is the inductive closure of `NetStep` from the initial
+state: deliver ANY logged message to ANY correct node through any peer (so duplication, reordering,
+delay, loss and partitions are all free), hand any block body / any majority claim to any node, fire
+any timeout a node has scheduled, and let a faulty validator append ANY message carrying its own
+sender id, and anybody append messages whose signature does not verify. A verifying message of a
+correct validator enters the log only as an output of that validator's `step` (ideal signatures).
+
+All statements are for every number of validators, every power assignment, every faulty set, every
+proposer table, every validity predicate and every reachable state — i.e. every schedule and every
+behaviour of the faulty validators. `agreement` alone assumes that the faulty set holds less than
+one third of the power.
+
+Limits (stated, not hidden): one height; block validity is the parameter `valid` (C06); signatures
+ideal; the reactor's gossip is replaced by the log (safety does not depend on what is gossiped);
+the internal queue of a node is FIFO and never overflows (as in C02). -/
+namespace Tmv.Props.C01
+open Tmv.Cons Tmv.Net Tmv.VoteLog
+
+/-- **quorum_intersection**: two vote sets each holding more than two thirds of the power share a
+validator outside any set holding less than one third. -/
 theorem quorum_intersection (P : Powers) (p q f : Nat → Bool)
     (hp : 3 * P.wt p > 2 * P.total) (hq : 3 * P.wt q > 2 * P.total)
     (hf : 3 * P.wt f < P.total) :
     ∃ v, v < P.n ∧ p v = true ∧ q v = true ∧ f v = false :=
   Tmv.VoteLog.quorum_intersection P p q f hp hq hf
+
+/-- **the lift**: in every reachable state the verified votes of the log satisfy the four
+per-correct-validator log invariants of `Tmv.VoteLog.Behaved` (votes in round order; one precommit
+per round; a block precommit is preceded in the log by a polka for it; a prevote against an earlier
+block precommit is preceded in the log by a polka for something else in a round in between) —
+whatever the faulty validators (any set, any power) put into the log. -/
+theorem log_behaved (nc : NetCfg) (s : Net) (hr : Reachable nc s) :
+    Behaved nc.powers nc.faulty (voteLog s.log) :=
+  (Inv.reachable hr).good.behaved
+
+/-- a verifying vote of a correct validator in the log was signed by that validator's node
+(nothing else puts it there) -/
+theorem correct_votes_are_signed (nc : NetCfg) (s : Net) (hr : Reachable nc s) (p : Nat) (hp : nc.correct p)
+    (m : VoteMsg) (hm : m ∈ voteLog s.log) (hs : m.sender = p) :
+    ∃ t, (t == VType.precommit) = m.isPrecommit ∧ Output.signVote t m.round m.value ∈ (s.nodes p).out :=
+  (Inv.reachable hr).mine p hp m hm hs
+
+/-- a correct validator never equivocates on the wire: two verifying votes of one type and round
+under its id carry the same value (C02's `one_per_step`, lifted to the log) -/
+theorem correct_never_equivocates (nc : NetCfg) (s : Net) (hr : Reachable nc s) (p : Nat) (hp : nc.correct p)
+    (m m' : VoteMsg) (hm : m ∈ voteLog s.log) (hm' : m' ∈ voteLog s.log) (hs : m.sender = p) (hs' : m'.sender = p)
+    (ht : m.isPrecommit = m'.isPrecommit) (hround : m.round = m'.round) : m.value = m'.value := by
+  have inv := Inv.reachable hr
+  obtain ⟨t, e, h1⟩ := inv.mine p hp m hm hs
+  obtain ⟨t', e', h2⟩ := inv.mine p hp m' hm' hs'
+  have htt : t = t' := by
+    rw [← e, ← e'] at ht
+    cases t <;> cases t' <;> simp_all
+  subst htt
+  have hg := (inv.node p hp).g
+  cases t with
+  | prevote =>
+    have := hg.uniq _ h1 _ h2 4 rfl rfl (by simpa [sigRound] using hround)
+    injection this
+  | precommit =>
+    have := hg.uniq _ h1 _ h2 6 rfl rfl (by simpa [sigRound] using hround)
+    injection this
+
+/-- inside the network the hypothesis of the C02 theorems holds: every timeout a correct node has
+scheduled (the only ones that can fire) is for a round the node has reached -/
+theorem scheduled_timeouts_reached (nc : NetCfg) (s : Net) (hr : Reachable nc s) (p : Nat) (hp : nc.correct p)
+    (r : Nat) (st : Step) (h : Output.schedule r st ∈ (s.nodes p).out) : r ≤ (s.nodes p).round :=
+  ((Inv.reachable hr).node p hp).n.sched r st h
+
+/-- **decision_backed**: every block a correct node has decided passed `ValidateBlock` at that node
+and is backed by precommits for exactly that block, in one round, that are in the log and come from
+validators holding more than two thirds of the voting power. (No hypothesis on the faulty set.) -/
+theorem decision_backed (nc : NetCfg) (s : Net) (hr : Reachable nc s) (p : Nat) (hp : nc.correct p) (b : Nat)
+    (hd : s.decided p = some b) :
+    nc.valid b = true ∧ ∃ r, decidable nc.powers (voteLog s.log) r b := by
+  have hw := ((Inv.reachable hr).node p hp).w
+  unfold Net.decided at hd
+  cases hdec : (s.nodes p).decided with
+  | none => rw [hdec] at hd; cases hd
+  | some br =>
+    obtain ⟨b', r⟩ := br
+    rw [hdec] at hd
+    simp at hd
+    subst hd
+    obtain ⟨hv, hq⟩ := hw.d b' r hdec
+    refine ⟨hv, ?_⟩
+    by_cases hneg : r < 0
+    · exfalso
+      have hz : wtUpTo (nc.node p).power (EL (voteLog s.log) VType.precommit r (some b')) (nc.node p).n = 0 := by
+        have : ∀ n, wtUpTo (nc.node p).power (EL (voteLog s.log) VType.precommit r (some b')) n = 0 := by
+          intro n
+          induction n with
+          | zero => rfl
+          | succ k ih =>
+            have : EL (voteLog s.log) VType.precommit r (some b') k = false := by
+              unfold EL
+              have : decide (0 ≤ r) = false := by simp; omega
+              rw [this]; rfl
+            simp [wtUpTo, ih, this]
+        exact this _
+      rw [hz] at hq
+      omega
+    · refine ⟨r.toNat, ?_⟩
+      have e : r = ((r.toNat : Nat) : Int) := by omega
+      rw [e] at hq
+      have e2 : EL (voteLog s.log) VType.precommit ((r.toNat : Nat) : Int) (some b') =
+          voted (voteLog s.log) true r.toNat (some b') := by
+        funext v; rw [EL_nat]; rfl
+      rw [e2] at hq
+      unfold decidable Powers.total Powers.wt
+      have ht := total_eq_wt (nc.node p)
+      show 3 * wtUpTo nc.power _ nc.n > 2 * wtUpTo nc.power (fun _ => true) nc.n
+      have ht' : (nc.node p).total = wtUpTo nc.power (fun _ => true) nc.n := ht
+      have hq' : 2 * (nc.node p).total < 3 * wtUpTo nc.power (voted (voteLog s.log) true r.toNat (some b')) nc.n := hq
+      omega
+
+/-- **agreement**: while the faulty validators hold less than one third of the voting power, no two
+correct nodes ever decide different blocks — in every reachable state, i.e. for every delivery
+order, delay, duplication, loss, partition and every behaviour of the faulty validators. -/
+theorem agreement (nc : NetCfg) (hf : 3 * nc.powers.wt nc.faulty < nc.powers.total)
+    (s : Net) (hr : Reachable nc s) (p q : Nat) (hp : nc.correct p) (hq : nc.correct q) (b b' : Nat)
+    (h1 : s.decided p = some b) (h2 : s.decided q = some b') : b = b' := by
+  obtain ⟨_, r, d1⟩ := decision_backed nc s hr p hp b h1
+  obtain ⟨_, r', d2⟩ := decision_backed nc s hr q hq b' h2
+  have hb := log_behaved nc s hr
+  rcases Nat.le_total r r' with hle | hle
+  · exact agreement_le nc.powers nc.faulty _ hb hf r b r' b' hle d1 d2
+  · exact (agreement_le nc.powers nc.faulty _ hb hf r' b' r b hle d2 d1).symm
+
+/-! ### Non-vacuity: explicit traces of the network model -/
+
+/-- running a list of ops through `Net.apply` (an op that is not a transition is skipped) -/
+def runOps (nc : NetCfg) (s : Net) (ops : List Op) : Net :=
+  ops.foldl (fun s op => (s.apply nc op).getD s) s
+
+theorem apply_step (nc : NetCfg) (s s' : Net) (op : Op) (h : s.apply nc op = some s') : NetStep nc s s' := by
+  unfold Net.apply at h
+  cases op with
+  | deliver p k peer =>
+    simp only at h
+    split at h
+    · rename_i hp
+      split at h
+      · rename_i m hm
+        cases h
+        have hk : k < s.log.length := by
+          have := List.getElem?_eq_some_iff.1 hm; exact this.1
+        have e : s.log[k] = m := (List.getElem?_eq_some_iff.1 hm).2
+        rw [← e]
+        exact NetStep.deliver s p k peer hp hk
+      · cases h
+    · cases h
+  | block p b => simp only at h; split at h <;> cases h; exact NetStep.block s p b ‹_›
+  | claim p r t peer bid => simp only at h; split at h <;> cases h; exact NetStep.claim s p r t peer bid ‹_›
+  | fire p r st =>
+    simp only at h; split at h <;> cases h
+    rename_i hc
+    exact NetStep.fire s p r st hc.1 hc.2
+  | txs p => simp only at h; split at h <;> cases h; exact NetStep.txs s p ‹_›
+  | byz m => simp only at h; split at h <;> cases h; exact NetStep.byz s m ‹_›
+
+theorem runOps_reachable (nc : NetCfg) (ops : List Op) (s : Net) (hr : Reachable nc s) :
+    Reachable nc (runOps nc s ops) := by
+  induction ops generalizing s with
+  | nil => exact hr
+  | cons op ops ih =>
+    unfold runOps
+    simp only [List.foldl]
+    apply ih
+    cases h : s.apply nc op with
+    | none => simpa using hr
+    | some s' => simpa using Reachable.step hr (apply_step nc s s' op h)
+
+/-- 4 validators of power 1, validator 3 faulty, proposer of round k is validator k mod 4 -/
+def exCfg (faulty : List Nat) : NetCfg where
+  n := 4
+  power := fun _ => 1
+  faulty := fun v => faulty.contains v
+  proposer := fun k => k % 4
+  valid := fun _ => true
+  ownBlock := fun p => p
+  waitForTxs := false
+  needProofBlock := true
+  emptyInterval := false
+  checkHRS := true
+
+/-- round 0: validator 0 proposes its block 0; validators 0,1,2 receive proposal and block, prevote
+and precommit it, and each receives the three prevotes and precommits: all three decide block 0.
+(log: 0 = proposal, 1 = prevote of 0, 2 = prevote of 1, 3 = prevote of 2, 4.. = precommits) -/
+def exHappy : List Op :=
+  [.fire 0 0 .newHeight, .fire 1 0 .newHeight, .fire 2 0 .newHeight,
+   .deliver 1 0 1, .block 1 0, .deliver 2 0 1, .block 2 0,
+   .deliver 0 2 1, .deliver 0 3 1, .deliver 1 1 1, .deliver 1 3 1, .deliver 2 1 1, .deliver 2 2 1,
+   .deliver 0 5 1, .deliver 0 6 1, .deliver 1 4 1, .deliver 1 6 1, .deliver 2 4 1, .deliver 2 5 1]
+
+/-- the hypotheses of `agreement` hold of a real run: `exCfg [3]` has less than one third faulty
+power, the state after `exHappy` is reachable, validators 0, 1, 2 are correct and all decided -/
+example : 3 * (exCfg [3]).powers.wt (exCfg [3]).faulty < (exCfg [3]).powers.total ∧
+    (exCfg [3]).correct 0 ∧ (exCfg [3]).correct 1 ∧ (exCfg [3]).correct 2 ∧
+    (runOps (exCfg [3]) Net.init exHappy).decided 0 = some 0 ∧
+    (runOps (exCfg [3]) Net.init exHappy).decided 1 = some 0 ∧
+    (runOps (exCfg [3]) Net.init exHappy).decided 2 = some 0 := by decide
+
+example : Reachable (exCfg [3]) (runOps (exCfg [3]) Net.init exHappy) :=
+  runOps_reachable _ _ _ Reachable.init
+
+/-- the dangerous schedule of the property text: validator 0 alone sees the round-0 polka for block 0
+(the faulty validator 3 sends its prevote to 0 only) and locks it; 0 is then cut off while 1, 2 and
+the faulty validator produce a polka and +2/3 precommits for the competing block 1 in round 1 and
+decide it; after the partition heals, 0 prevotes its locked block, sees the round-1 polka, unlocks,
+locks block 1 and decides block 1 as well. -/
+def exLock : List Op :=
+  [.fire 0 0 .newHeight, .fire 1 0 .newHeight, .fire 2 0 .newHeight, .deliver 1 0 1, .block 1 0,
+   .fire 2 0 .propose, .byz ⟨3, .vote .prevote 0 (some 0), true⟩, .deliver 0 2 1, .deliver 0 4 3,
+   .deliver 1 1 1, .deliver 1 3 2, .fire 1 0 .prevoteWait, .deliver 2 1 1, .deliver 2 2 1,
+   .fire 2 0 .prevoteWait, .byz ⟨3, .vote .precommit 0 none, true⟩, .deliver 0 6 1, .deliver 0 7 2,
+   .fire 0 0 .precommitWait, .deliver 1 7 2, .deliver 1 8 3, .fire 1 0 .precommitWait,
+   .deliver 2 6 1, .deliver 2 8 3, .fire 2 0 .precommitWait, .deliver 2 9 1, .block 2 1,
+   .byz ⟨3, .vote .prevote 1 (some 1), true⟩, .deliver 1 11 2, .deliver 1 12 3, .deliver 2 10 1,
+   .deliver 2 12 3, .byz ⟨3, .vote .precommit 1 (some 1), true⟩, .deliver 1 14 2, .deliver 1 15 3,
+   .deliver 2 13 1, .deliver 2 15 3]
+
+def exHeal : List Op :=
+  [.deliver 0 9 1, .block 0 1, .deliver 0 10 1, .deliver 0 11 2,
+   .deliver 0 12 3, .deliver 0 13 1, .deliver 0 14 2]
+
+set_option maxRecDepth 8000 in
+/-- … during the partition two correct validators hold different locks (0 on block 0, 1 on block 1)
+while 1 and 2 have decided block 1 … -/
+example :
+    let s := runOps (exCfg [3]) Net.init exLock
+    (s.nodes 0).lockedBlock = some 0 ∧ (s.nodes 1).lockedBlock = some 1 ∧
+    s.decided 0 = none ∧ s.decided 1 = some 1 ∧ s.decided 2 = some 1 := by decide
+
+set_option maxRecDepth 8000 in
+/-- … and after healing validator 0 has signed prevote(1, block 0) — its lock —, precommit(1, block 1),
+and decided block 1 -/
+example :
+    let s := runOps (exCfg [3]) Net.init (exLock ++ exHeal)
+    Output.signVote .precommit 0 (some 0) ∈ (s.nodes 0).out ∧
+    Output.signVote .prevote 1 (some 0) ∈ (s.nodes 0).out ∧
+    Output.signVote .precommit 1 (some 1) ∈ (s.nodes 0).out ∧
+    s.decided 0 = some 1 ∧ s.decided 1 = some 1 ∧ s.decided 2 = some 1 := by decide
+
+/-- validators 2 and 3 (half of the power) faulty: they show block 0 to validator 0 and, after nil
+rounds, block 1 to validator 1 -/
+def exSplit : List Op :=
+  [.fire 0 0 .newHeight, .byz ⟨2, .vote .prevote 0 (some 0), true⟩,
+   .byz ⟨3, .vote .prevote 0 (some 0), true⟩, .deliver 0 2 1, .deliver 0 3 1,
+   .byz ⟨2, .vote .precommit 0 (some 0), true⟩, .byz ⟨3, .vote .precommit 0 (some 0), true⟩,
+   .deliver 0 5 1, .deliver 0 6 1, .fire 1 0 .newHeight, .fire 1 0 .propose,
+   .byz ⟨2, .vote .prevote 0 none, true⟩, .byz ⟨3, .vote .prevote 0 none, true⟩, .deliver 1 8 1,
+   .deliver 1 9 1, .byz ⟨2, .vote .precommit 0 none, true⟩,
+   .byz ⟨3, .vote .precommit 0 none, true⟩, .deliver 1 11 1, .deliver 1 12 1,
+   .fire 1 0 .precommitWait, .byz ⟨2, .vote .prevote 1 (some 1), true⟩,
+   .byz ⟨3, .vote .prevote 1 (some 1), true⟩, .deliver 1 15 1, .deliver 1 16 1,
+   .byz ⟨2, .vote .precommit 1 (some 1), true⟩, .byz ⟨3, .vote .precommit 1 (some 1), true⟩,
+   .deliver 1 18 1, .deliver 1 19 1]
+
+/-- **the bound on the faulty power cannot be dropped** (and the model is not trivially safe): with
+validators 2 and 3 of four equal validators faulty, a reachable state has the correct validators 0
+and 1 decide different blocks. -/
+theorem agreement_needs_less_than_one_third :
+    ∃ s, Reachable (exCfg [2, 3]) s ∧ (exCfg [2, 3]).correct 0 ∧ (exCfg [2, 3]).correct 1 ∧
+      s.decided 0 = some 0 ∧ s.decided 1 = some 1 :=
+  ⟨runOps (exCfg [2, 3]) Net.init exSplit, runOps_reachable _ _ _ Reachable.init, by decide⟩
 
 end Tmv.Props.C01
